@@ -3,7 +3,7 @@
 From Coq Require Import ZArith List Bool Lia.
 Import ListNotations.
 Require Import MV.Lib.Base MV.C05.Types MV.C05.Gen MV.C05.Model MV.C05.ProofsBase MV.C05.Proofs MV.C05.ProofsInv
-        MV.C05.ProofsMap.
+        MV.C05.ProofsMap MV.C05.ProofsAlias.
 Open Scope Z_scope.
 
 (* the same operation with the storage mode of a creation forced *)
@@ -14,19 +14,52 @@ Definition force (dense : bool) (o : op) : op :=
    reference (the dense view writes through, the sparse default copy does not - the property only says it harms no
    other entry), len / iteration (sparse: explicitly written keys, by design) and the harness's own Snap *)
 Definition shared_op (o : op) : Prop :=
-  match o with Mut _ _ _ | Len _ | Iter _ | Snap => False | _ => True end.
+  match o with
+  | Mut _ _ _ | Len _ | Iter _ | Snap | MutArr _ _ _ _ | Contains _ _ | CreateSized _ _ _ _ _ | Register _ _ _ _ _ => False
+  | _ => True
+  end.
+
+(* strings within the fixed width of the dense storage (Type.dtype): longer ones are cut by numpy, see
+   long_strings_refuted *)
+Definition short (c : comp) : Prop := match c with CS l => Z.of_nat (length l) <= string_width | _ => True end.
+Definition short_value (v : value) : Prop :=
+  match v with VScal c => short c | VSeq l => Forall short l | VStr s => Z.of_nat (length s) <= string_width end.
+Definition short_op (o : op) : Prop :=
+  match o with
+  | Create _ _ _ _ (Some c) => short c
+  | SetItem _ _ v => short_value v
+  | Update _ _ _ x => short x
+  | _ => True
+  end.
+
+Lemma store_short t c : short c -> store t c = cast t c.
+Proof.
+  intros H. unfold store. destruct t, c; try reflexivity. simpl in *. unfold trunc.
+  rewrite firstn_all2; [reflexivity|lia].
+Qed.
+
+Lemma comps_short e v l : comps_of e v = Some l -> short_value v -> Forall short l.
+Proof.
+  unfold comps_of. destruct (e >? 1).
+  - destruct v as [c|l0|s0]; simpl; intros H Hs; inversion H; subst; auto.
+    clear. induction s0; simpl; constructor; auto. simpl. unfold string_width. lia.
+  - destruct v as [c|l0|s0]; simpl; intros H Hs; inversion H; subst; repeat constructor; auto.
+Qed.
 
 (* container length after an operation: a function of the history alone *)
-Definition size_after (n : Z) (o : op) : Z :=
+Definition size_after (cn : bool) (n : Z) (o : op) : Z :=
   match o with
-  | Append => n + 1 | ExtendList m | ExtendOther m => n + m | ExtendSelf => n + n | ClearAll => 0 | _ => n
+  | Append => n + 1 | ExtendList m | ExtendOther m => n + m | ExtendSelf => n + n | ClearAll => 0
+  | ExtendListBad m => if cn then n else n + (m + 1)     (* refused as a whole by a corner container *)
+  | _ => n
   end.
 
 (* reads and writes address elements of the container *)
-Fixpoint well_addressed (n : Z) (h : list op) : Prop :=
+Fixpoint well_addressed (cn : bool) (n : Z) (h : list op) : Prop :=
   match h with
   | [] => True
-  | o :: t => match o with SetItem _ k _ | GetItem _ k => 0 <= k < n | _ => True end /\ well_addressed (size_after n o) t
+  | o :: t => match o with SetItem _ k _ | GetItem _ k | Update _ k _ _ => 0 <= k < n | _ => True end /\
+              well_addressed cn (size_after cn n o) t
   end.
 
 (* lengths of the individual attributes are storage specific: erased from growth observations *)
@@ -34,13 +67,14 @@ Definition pub (w : obs) : obs :=
   match w with OGrow n _ => OGrow n [] | OGrowErr e n _ => OGrowErr e n [] | x => x end.
 
 Lemma reads_pres n h h' a :
-  attr_ok n h a -> hpres h h' -> default_row h' a = default_row h a /\ forall j, rd_attr h' a j = rd_attr h a j.
+  attr_ok n h a -> hpres h h' ->
+  default_row h' a = default_row h a /\ unset_read h' a = unset_read h a /\ forall j, rd_attr h' a j = rd_attr h a j.
 Proof.
   intros [A1 [A2 A3]] HP.
   assert (D : default_row h' a = default_row h a).
   { unfold default_row. destruct (adef a) as [c|id]; [reflexivity|]. destruct A2 as [_ [c [Hc _]]].
     rewrite HP; [reflexivity|]. apply nth_error_Some. congruence. }
-  split; [exact D|]. intros j. unfold rd_attr.
+  split; [exact D|]. split; [unfold unset_read; now rewrite D|]. intros j. unfold rd_attr.
   destruct (ast a) as [m|ne st rows]; [|reflexivity]. destruct A3 as [_ A3].
   destruct (lookup j m) as [sv|] eqn:L.
   - specialize (A3 _ _ L). destruct sv as [c|id]; [reflexivity|]. simpl.
@@ -54,9 +88,11 @@ Definition arel (s d : state) (a : Z) : Prop :=
   | None, None => True
   | Some x, Some y =>
       aty x = aty y /\ asz x = asz y /\
-      (exists m, ast x = Sparse m /\ forall k, In k (map fst m) -> 0 <= k < sn s) /\
+      (exists m, ast x = Sparse m /\ (forall k, In k (map fst m) -> 0 <= k < sn s) /\
+                 (forall k c, lookup k m = Some (SScal c) -> short c)) /\
       (exists ne st rows, ast y = Dense ne st rows) /\
       default_row (hp s) x = default_row (hp d) y /\
+      unset_read (hp s) x = default_row (hp s) x /\
       forall k, 0 <= k < sn s -> rd_attr (hp s) x k = rd_attr (hp d) y k
   | _, _ => False
   end.
@@ -72,10 +108,11 @@ Lemma arel_frame s d s' d' b :
 Proof.
   intros [_ [I1 _]] [_ [J1 _]] H Ls Ld Hs Hd N. unfold arel in *. rewrite Ls, Ld, N.
   destruct (lookup b (attrs s)) as [x|] eqn:Lx; destruct (lookup b (attrs d)) as [y|] eqn:Ly; try exact H.
-  destruct H as [T [Z0 [K [DN [DF RD]]]]].
-  destruct (reads_pres _ _ _ _ (I1 _ _ Lx) Hs) as [D1 R1].
-  destruct (reads_pres _ _ _ _ (J1 _ _ Ly) Hd) as [D2 R2].
+  destruct H as [T [Z0 [K [DN [DF [UR RD]]]]]].
+  destruct (reads_pres _ _ _ _ (I1 _ _ Lx) Hs) as [D1 [U1 R1]].
+  destruct (reads_pres _ _ _ _ (J1 _ _ Ly) Hd) as [D2 [U2 R2]].
   repeat split; auto.
+  - congruence.
   - congruence.
   - intros k Hk. rewrite R1, R2. now apply RD.
 Qed.
@@ -84,7 +121,7 @@ Lemma default_row_set_storage h x st : default_row h (set_storage x st) = defaul
 Proof. reflexivity. Qed.
 
 Lemma default_row_fresh h t k v st :
-  default_row (h ++ [mkcell t v]) (mkattr t k (DCell (length h)) st) = map (cast t) v.
+  default_row (h ++ [mkcell t v]) (mkattr t k (DCell (length h)) st) = map (store t) v.
 Proof. unfold default_row. simpl. rewrite nth_error_app_new. reflexivity. Qed.
 
 Lemma map_repeat {A B} (f : A -> B) x n : map f (repeat x n) = repeat (f x) n.
@@ -97,12 +134,15 @@ Lemma in_range_not_oob k n : 0 <= k < n -> dense_oob k n = false.
 Proof. intros K. destruct (dense_oob k n) eqn:O; [|reflexivity]. apply dense_bounds in O. lia. Qed.
 
 (* ------------------------------------------------------------------ create *)
+Lemma type_default_short t : short (type_default t).
+Proof. destruct t; simpl; auto. unfold string_width. lia. Qed.
+
 Lemma sim_create s d a t k df :
-  R s d -> 1 <= k ->
+  R s d -> 1 <= k -> match df with Some c => short c | None => True end ->
   snd (do_create s a t k false df) = snd (do_create d a t k true df) /\
   R (fst (do_create s a t k false df)) (fst (do_create d a t k true df)).
 Proof.
-  intros HR Hk. pose proof HR as [C [N [Is [Id HA]]]].
+  intros HR Hk Hsh. pose proof HR as [C [N [Is [Id HA]]]].
   pose proof (inv_create s a t k false df Is Hk) as Is'.
   pose proof (inv_create d a t k true df Id Hk) as Id'.
   revert Is' Id'. unfold do_create.
@@ -113,13 +153,14 @@ Proof.
   rewrite <- P. destruct (match lookup a (attrs s) with Some _ => create_keeps_existing | None => false end).
   { intros _ _. simpl. split; [reflexivity|exact HR]. }
   assert (V : (exists e, mk_default (hp s) t k df = inl e /\ mk_default (hp d) t k df = inl e) \/
-              (exists c, mk_default (hp s) t k df = inr (hp s, DScal c) /\ mk_default (hp d) t k df = inr (hp d, DScal c)) \/
+              (exists c, short c /\ mk_default (hp s) t k df = inr (hp s, DScal c) /\ mk_default (hp d) t k df = inr (hp d, DScal c)) \/
               (k <> 1 /\ mk_default (hp s) t k df = inr (hp s ++ [mkcell t (repeat (type_default t) (Z.to_nat k))], DCell (length (hp s))) /\
                mk_default (hp d) t k df = inr (hp d ++ [mkcell t (repeat (type_default t) (Z.to_nat k))], DCell (length (hp d))))).
   { unfold mk_default. destruct df as [c|].
     - destruct (kind_of c) as [td|]; [|left; eauto]. destruct (default_type_bad td t); [left; eauto|right; left; eauto].
-    - destruct (k =? 1) eqn:K1; [right; left; eauto|right; right]. split; [lia|auto]. }
-  destruct V as [[e [V1 V2]]|[[c [V1 V2]]|[K1 [V1 V2]]]]; rewrite V1, V2; simpl.
+    - destruct (k =? 1) eqn:K1; [right; left; exists (type_default t); split; [apply type_default_short|auto]|right; right].
+      split; [lia|auto]. }
+  destruct V as [[e [V1 V2]]|[[c [Sc [V1 V2]]]|[K1 [V1 V2]]]]; rewrite V1, V2; simpl.
   - intros _ _. split; [reflexivity|exact HR].
   - intros Is' Id'. split; [reflexivity|]. split; [exact C|]. split; [exact N|]. split; [exact Is'|]. split; [exact Id'|].
     intros b. destruct (Z.eq_dec b a) as [E|NE].
@@ -127,12 +168,14 @@ Proof.
       destruct Is' as [_ [I1 _]]. destruct Id' as [_ [J1 _]].
       pose proof (I1 a _ (lookup_put_same _ _ _)) as Okx. pose proof (J1 a _ (lookup_put_same _ _ _)) as Oky.
       simpl in Okx, Oky.
-      repeat split; auto.
-      * exists []. split; [reflexivity|]. intros ? [].
-      * unfold new_storage. eauto.
-      * intros j Hj. erewrite rd_sparse_unset; [|exact Okx|reflexivity|reflexivity].
-        erewrite rd_dense; [|exact Oky|reflexivity|lia].
-        unfold znth_row, dense_init_rows, create_dense_n_elem. rewrite nth_repeat_in by lia. reflexivity.
+      assert (UR : unset_read (hp s) (mkattr t k (DScal c) (Sparse [])) = default_row (hp s) (mkattr t k (DScal c) (Sparse []))).
+      { unfold unset_read, default_row. simpl. destruct (k >? 1) eqn:K1; [reflexivity|].
+        assert (k = 1) by lia. subst k. simpl. now rewrite store_short. }
+      split; [reflexivity|]. split; [reflexivity|]. split; [exists []; split; [reflexivity|split; [intros ? []|intros ? ? ?; discriminate]]|].
+      split; [unfold new_storage; eauto|]. split; [reflexivity|]. split; [exact UR|].
+      intros j Hj. erewrite rd_sparse_unset; [|exact Okx|reflexivity|reflexivity].
+      erewrite rd_dense; [|exact Oky|reflexivity|lia].
+      unfold znth_row, dense_init_rows, create_dense_n_elem. rewrite nth_repeat_in by lia. f_equal. exact UR.
     + apply (arel_frame s d _ _ b Is Id (HA b)); simpl; auto; try apply hpres_refl.
       * now rewrite lookup_put_other.
       * now rewrite lookup_put_other.
@@ -141,15 +184,15 @@ Proof.
     + subst b. unfold arel. simpl. rewrite !lookup_put_same. simpl.
       destruct Is' as [_ [I1 _]]. destruct Id' as [_ [J1 _]].
       pose proof (I1 a _ (lookup_put_same _ _ _)) as Okx. pose proof (J1 a _ (lookup_put_same _ _ _)) as Oky.
-      simpl in Okx, Oky.
-      repeat split; auto.
-      * exists []. split; [reflexivity|]. intros ? [].
-      * unfold new_storage. eauto.
-      * rewrite !default_row_fresh. reflexivity.
-      * intros j Hj. erewrite rd_sparse_unset; [|exact Okx|reflexivity|reflexivity].
-        erewrite rd_dense; [|exact Oky|reflexivity|lia].
-        unfold znth_row, dense_init_rows, create_dense_n_elem. rewrite nth_repeat_in by lia.
-        rewrite !default_row_fresh. reflexivity.
+      simpl in Okx, Oky. pose proof Okx as [_ [[K2 _] _]]. simpl in K2.
+      assert (UR : forall h st, unset_read h (mkattr t k (DCell (length (hp s))) (Sparse st)) = default_row h (mkattr t k (DCell (length (hp s))) (Sparse st))).
+      { intros h st. unfold unset_read. simpl. assert (Q : k >? 1 = true) by lia. now rewrite Q. }
+      split; [reflexivity|]. split; [reflexivity|]. split; [exists []; split; [reflexivity|split; [intros ? []|intros ? ? ?; discriminate]]|].
+      split; [unfold new_storage; eauto|]. split; [rewrite !default_row_fresh; reflexivity|]. split; [apply UR|].
+      intros j Hj. erewrite rd_sparse_unset; [|exact Okx|reflexivity|reflexivity].
+      erewrite rd_dense; [|exact Oky|reflexivity|lia].
+      unfold znth_row, dense_init_rows, create_dense_n_elem. rewrite nth_repeat_in by lia.
+      unfold new_storage. rewrite UR. rewrite !default_row_fresh. reflexivity.
     + apply (arel_frame s d _ _ b Is Id (HA b)); simpl; auto; try apply hpres_app.
       * now rewrite lookup_put_other.
       * now rewrite lookup_put_other.
@@ -157,11 +200,11 @@ Qed.
 
 (* ------------------------------------------------------------------ set *)
 Lemma sim_set s d a k v :
-  R s d -> 0 <= k < sn s ->
+  R s d -> 0 <= k < sn s -> short_value v ->
   snd (step s (SetItem a k v)) = snd (step d (SetItem a k v)) /\
   R (fst (step s (SetItem a k v))) (fst (step d (SetItem a k v))).
 Proof.
-  intros HR Hk. pose proof HR as [C [N [Is [Id HA]]]].
+  intros HR Hk Hsv. pose proof HR as [C [N [Is [Id HA]]]].
   pose proof (inv_step s (SetItem a k v) Is I) as Is'.
   pose proof (inv_step d (SetItem a k v) Id I) as Id'.
   destruct (step s (SetItem a k v)) as [s' ws] eqn:Es. destruct (step d (SetItem a k v)) as [d' wd] eqn:Ed.
@@ -171,7 +214,7 @@ Proof.
   pose proof (HA a) as Ha. unfold arel in Ha.
   destruct (lookup a (attrs s)) as [x|] eqn:Lx; destruct (lookup a (attrs d)) as [y|] eqn:Ly; try contradiction.
   2:{ inversion Es; inversion Ed; subst. split; [reflexivity|]. exact HR. }
-  destruct Ha as [T [Z0 [[m [Sx Kx]] [[ne [st [rows Sy]]] [DF RD]]]]].
+  destruct Ha as [T [Z0 [[m [Sx [Kx Sh]]] [[ne [st [rows Sy]]] [DF [UR RD]]]]]].
   pose proof Id as [_ [J1 _]]. pose proof (J1 _ _ Ly) as Oky. pose proof Oky as [_ [_ B]]. rewrite Sy in B.
   destruct B as [B1 _]. subst ne.
   rewrite Sx in Es. rewrite Sy in Ed. rewrite in_range_not_oob in Ed by lia.
@@ -194,24 +237,38 @@ Proof.
   intros b. destruct (Z.eq_dec b a) as [E|NE].
   - subst b. unfold arel.
     assert (exists x', lookup a (attrs s') = Some x' /\ aty x' = aty x /\ asz x' = asz x /\ adef x' = adef x /\
-                       exists m', ast x' = Sparse m' /\ forall j, In j (map fst m') -> j = k \/ In j (map fst m)) as [x' [Lx' [T1 [Z1 [D1 [m' [Sx' Kx']]]]]]].
-    { destruct isv; inversion Es; subst s'; simpl; rewrite lookup_put_same; eexists; (split; [reflexivity|]); simpl;
-        repeat split; auto; eexists; (split; [reflexivity|]); intros j; apply upsert_keys_incl. }
+                       exists m', ast x' = Sparse m' /\ (forall j, In j (map fst m') -> j = k \/ In j (map fst m)) /\
+                                  (forall j c, lookup j m' = Some (SScal c) -> short c)) as [x' [Lx' [T1 [Z1 [D1 [m' [Sx' [Kx' Sh']]]]]]]].
+    { assert (SL : isv = false -> short (hd CX l)).
+      { intros Ei. subst isv. pose proof Is as [_ [I1 _]]. destruct (I1 _ _ Lx) as [A1 _].
+        pose proof V as V'. apply sparse_validate_inr in V'; [|exact A1]. destruct V' as [_ [V1 _]].
+        pose proof (comps_short _ _ _ V1 Hsv) as Fs. destruct l; simpl; [exact I|]. now inversion Fs. }
+      destruct isv; inversion Es; subst s'; simpl; rewrite lookup_put_same; eexists; (split; [reflexivity|]); simpl;
+        repeat split; auto; eexists; (split; [reflexivity|]); (split; [intros j; apply upsert_keys_incl|]);
+          intros j c; rewrite lookup_upsert; destruct (j =? k); try (apply Sh); intros Q; inversion Q; subst; auto. }
     assert (exists y', lookup a (attrs d') = Some y' /\ aty y' = aty y /\ asz y' = asz y /\ adef y' = adef y /\
                        exists ne' st' rows', ast y' = Dense ne' st' rows') as [y' [Ly' [T2 [Z2 [D2 Sy']]]]].
     { inversion Ed; subst d'; simpl; rewrite lookup_put_same; eexists; (split; [reflexivity|]); simpl; repeat split; eauto. }
     rewrite Lx', Ly'. split; [congruence|]. split; [congruence|]. split.
-    { exists m'. split; [exact Sx'|]. intros j Hj. rewrite Sn. destruct (Kx' _ Hj); [lia|auto]. }
+    { exists m'. split; [exact Sx'|]. split; [|exact Sh']. intros j Hj. rewrite Sn. destruct (Kx' _ Hj); [lia|auto]. }
     split; [exact Sy'|]. split.
     { pose proof Is as [_ [I1 _]]. destruct (reads_pres _ _ _ _ (I1 _ _ Lx) Hs) as [P1 _].
       destruct (reads_pres _ _ _ _ Oky Hd) as [P2 _].
       transitivity (default_row (hp s') x); [unfold default_row; now rewrite T1, Z1, D1|].
       transitivity (default_row (hp d') y); [congruence|]. unfold default_row. now rewrite T2, Z2, D2. }
+    split.
+    { pose proof Is as [_ [I1 _]]. destruct (reads_pres _ _ _ _ (I1 _ _ Lx) Hs) as [P1 [P3 _]].
+      transitivity (unset_read (hp s') x); [unfold unset_read, default_row; now rewrite Sx', Sx, T1, Z1, D1|].
+      transitivity (default_row (hp s') x); [congruence|]. unfold default_row. now rewrite T1, Z1, D1. }
     intros j Hj. rewrite Sn in Hj.
     assert (Q1 : rd s' a j = rd_attr (hp s') x' j) by (unfold rd; now rewrite Lx').
     assert (Q2 : rd d' a j = rd_attr (hp d') y' j) by (unfold rd; now rewrite Ly').
     rewrite <- Q1, <- Q2. destruct (Z.eq_dec j k) as [Ej|Nj].
-    + subst j. rewrite Rk, Rk1. congruence.
+    + subst j. rewrite Rk, Rk1. f_equal. unfold written. rewrite Sx, Sy, <- T.
+      destruct isv; [reflexivity|]. apply map_ext_in. intros c Hc. symmetry. apply store_short.
+      pose proof Is as [_ [I1 _]]. destruct (I1 _ _ Lx) as [A1 _].
+      apply sparse_validate_inr in V; [|exact A1]. destruct V as [_ [V1 _]].
+      pose proof (comps_short _ _ _ V1 Hsv) as Fs. rewrite Forall_forall in Fs. now apply Fs.
     + rewrite Fr, Fr1 by congruence. unfold rd. rewrite Lx, Ly. now apply RD.
   - apply (arel_frame s d s' d' b Is Id (HA b)); auto.
     + destruct isv; inversion Es; subst s'; simpl; now rewrite lookup_put_other.
@@ -234,7 +291,7 @@ Proof.
   split.
   - subst ws wd. unfold get_obs. pose proof (HA a) as Ha. unfold arel in Ha.
     destruct (lookup a (attrs s)) as [x|]; destruct (lookup a (attrs d)) as [y|]; try contradiction; [|reflexivity].
-    destruct Ha as [T [Z0 [_ [_ [_ RD]]]]]. rewrite (RD k Hk), Z0. reflexivity.
+    destruct Ha as [T [Z0 [_ [_ [_ [_ RD]]]]]]. rewrite (RD k Hk), Z0. reflexivity.
   - split; [congruence|]. split; [congruence|]. split; [exact Is'|]. split; [exact Id'|].
     intros b. apply (arel_frame s d s' d' b Is Id (HA b)); auto; congruence.
 Qed.
@@ -252,7 +309,7 @@ Proof.
   split; [exact C|]. split; [simpl; lia|]. split; [exact Is'|]. split; [exact Id'|].
   intros b. pose proof (HA b) as Hb. unfold arel in *. simpl. rewrite !lookup_map_vals.
   destruct (lookup b (attrs s)) as [x|] eqn:Lx; destruct (lookup b (attrs d)) as [y|] eqn:Ly; try contradiction; [|exact I].
-  simpl. destruct Hb as [T [Z0 [[m [Sx Kx]] [[ne [st [rows Sy]]] [DF RD]]]]].
+  simpl. destruct Hb as [T [Z0 [[m [Sx [Kx Sh]]] [[ne [st [rows Sy]]] [DF [UR RD]]]]]].
   pose proof Is as [_ [I1 _]]. pose proof Id as [Nn [J1 _]].
   pose proof (I1 _ _ Lx) as Okx. pose proof (J1 _ _ Ly) as Oky.
   destruct Id' as [_ [J1' _]]. simpl in J1'.
@@ -261,8 +318,8 @@ Proof.
   pose proof (J1' _ _ Ly') as Oky'. clear J1' Ly'.
   unfold expand_attr in *. rewrite Sx. rewrite Sy in *. simpl.
   split; [exact T|]. split; [exact Z0|]. split.
-  { exists m. split; [exact Sx|]. intros j Hj. specialize (Kx j Hj). lia. }
-  split; [eauto|]. split; [exact DF|].
+  { exists m. split; [exact Sx|]. split; [|exact Sh]. intros j Hj. specialize (Kx j Hj). lia. }
+  split; [eauto|]. split; [exact DF|]. split; [exact UR|].
   intros j Hj.
   pose proof Oky as [_ [_ B]]. rewrite Sy in B. destruct B as [B1 [B2 B3]]. subst ne.
   erewrite (rd_dense _ (hp d) _ _ _ _ j Oky'); [|reflexivity|lia].
@@ -270,7 +327,7 @@ Proof.
   - rewrite RD by lia. erewrite rd_dense; [|exact Oky|exact Sy|lia].
     unfold znth_row. rewrite app_nth1 by lia. reflexivity.
   - rewrite (rd_sparse_unset _ _ _ _ _ Okx Sx).
-    + unfold znth_row, dense_expand_rows. rewrite nth_app_repeat_new by lia. now rewrite DF.
+    + unfold znth_row, dense_expand_rows. rewrite nth_app_repeat_new by lia. now rewrite UR, DF.
     + apply lookup_None_key. intros Hin. specialize (Kx j Hin). lia.
 Qed.
 
@@ -284,27 +341,28 @@ Proof.
   revert Is' Id'. unfold do_clear_attr. pose proof (HA a) as Ha. unfold arel in Ha.
   destruct (lookup a (attrs s)) as [x|] eqn:Lx; destruct (lookup a (attrs d)) as [y|] eqn:Ly; try contradiction.
   2:{ intros _ _. split; [reflexivity|exact HR]. }
-  destruct Ha as [T [Z0 [[m [Sx Kx]] [[ne [st [rows Sy]]] [DF RD]]]]]. rewrite Sx, Sy. simpl.
+  destruct Ha as [T [Z0 [[m [Sx [Kx Sh]]] [[ne [st [rows Sy]]] [DF [UR RD]]]]]]. rewrite Sx, Sy. simpl.
   intros Is' Id'. split; [reflexivity|]. split; [exact C|]. split; [exact N|]. split; [exact Is'|]. split; [exact Id'|].
   intros b. destruct (Z.eq_dec b a) as [E|NE].
   - subst b. unfold arel. simpl. rewrite !lookup_put_same. simpl.
     destruct Is' as [_ [I1 _]]. destruct Id' as [_ [J1 _]].
     pose proof (I1 a _ (lookup_put_same _ _ _)) as Okx. pose proof (J1 a _ (lookup_put_same _ _ _)) as Oky.
     simpl in Okx, Oky. pose proof Oky as [_ [_ B]]. simpl in B. destruct B as [B1 _].
-    repeat split; auto.
-    + exists []. split; [reflexivity|]. intros ? [].
-    + eauto.
-    + intros j Hj. erewrite rd_sparse_unset; [|exact Okx|reflexivity|reflexivity].
-      erewrite rd_dense; [|exact Oky|reflexivity|lia].
-      unfold znth_row, dense_clear_rows. rewrite nth_repeat_in by lia. f_equal. exact DF.
+    assert (UR' : unset_read (hp s) (set_storage x (Sparse [])) = default_row (hp s) x).
+    { rewrite <- UR. unfold unset_read. simpl. now rewrite Sx. }
+    split; [exact T|]. split; [exact Z0|]. split; [exists []; split; [reflexivity|split; [intros ? []|intros ? ? ?; discriminate]]|].
+    split; [eauto|]. split; [exact DF|]. split; [exact UR'|].
+    intros j Hj. erewrite rd_sparse_unset; [|exact Okx|reflexivity|reflexivity].
+    erewrite rd_dense; [|exact Oky|reflexivity|lia].
+    unfold znth_row, dense_clear_rows. rewrite nth_repeat_in by lia. f_equal. rewrite UR'. exact DF.
   - apply (arel_frame s d _ _ b Is Id (HA b)); simpl; auto; try apply hpres_refl; now rewrite lookup_put_other.
 Qed.
 
 (* ------------------------------------------------------------------ array export *)
 Definition fill_row (h : heap) (a : attr) (sv : sval) : list comp :=
   match sv with
-  | SScal c => repeat (cast (aty a) c) (Z.to_nat (asz a))
-  | SVec id => match nth_error h id with Some c => map (cast (aty a)) (cv c) | None => [] end
+  | SScal c => repeat (store (aty a) c) (Z.to_nat (asz a))
+  | SVec id => match nth_error h id with Some c => map (store (aty a)) (cv c) | None => [] end
   end.
 
 Lemma fill_rows_spec h a n m : forall out,
@@ -331,22 +389,40 @@ Proof.
       * destruct (lookup i t); [reflexivity|]. apply nth_upd_other. lia.
 Qed.
 
-Lemma sim_as_array s d a :
-  R s d -> do_as_array s a = (s, snd (do_as_array s a)) /\ do_as_array d a = (d, snd (do_as_array d a)) /\
-           snd (do_as_array s a) = snd (do_as_array d a).
+Lemma as_array_fields s a :
+  attrs (fst (do_as_array s a)) = attrs s /\ hp (fst (do_as_array s a)) = hp s /\ sn (fst (do_as_array s a)) = sn s /\
+  corner (fst (do_as_array s a)) = corner s.
 Proof.
-  intros HR. pose proof HR as [C [N [Is [Id HA]]]]. unfold do_as_array.
+  unfold do_as_array. destruct (lookup a (attrs s)) as [x|]; [|auto]. destruct (ast x); [destruct (fill_rows _ _ _ _ _)|]; auto.
+Qed.
+
+Lemma fixed_cast_store t (l : list comp) :
+  Forall (fun v => store t v = v) l -> map (cast t) l = map (store t) l.
+Proof.
+  intros H. apply map_ext_in. intros v Hv. rewrite Forall_forall in H. rewrite <- (H v Hv) at 1. apply cast_store.
+Qed.
+
+Lemma sim_as_array s d a :
+  R s d -> snd (do_as_array s a) = snd (do_as_array d a) /\ R (fst (do_as_array s a)) (fst (do_as_array d a)).
+Proof.
+  intros HR. pose proof HR as [C [N [Is [Id HA]]]].
+  destruct (as_array_fields s a) as [As [Hs [Ns Cs]]]. destruct (as_array_fields d a) as [Ad [Hd [Nd Cd]]].
+  split.
+  2:{ split; [congruence|]. split; [congruence|]. split; [now apply inv_as_array|]. split; [now apply inv_as_array|].
+      intros b. apply (arel_frame s d _ _ b Is Id (HA b)); try congruence;
+        first [rewrite Hs; apply hpres_refl|rewrite Hd; apply hpres_refl]. }
+  unfold do_as_array.
   pose proof (HA a) as Ha. unfold arel in Ha.
   destruct (lookup a (attrs s)) as [x|] eqn:Lx; destruct (lookup a (attrs d)) as [y|] eqn:Ly; try contradiction.
-  2:{ auto. }
-  destruct Ha as [T [Z0 [[m [Sx Kx]] [[ne [st [rows Sy]]] [DF RD]]]]]. rewrite Sx, Sy.
+  2:{ reflexivity. }
+  destruct Ha as [T [Z0 [[m [Sx [Kx Sh]]] [[ne [st [rows Sy]]] [DF [UR RD]]]]]]. rewrite Sx, Sy.
   pose proof Is as [Nn [I1 _]]. pose proof Id as [_ [J1 _]].
   pose proof (I1 _ _ Lx) as Okx. pose proof (J1 _ _ Ly) as Oky.
   pose proof Okx as [_ [_ A3]]. rewrite Sx in A3. destruct A3 as [ND A3].
   pose proof Oky as [_ [_ B]]. rewrite Sy in B. destruct B as [B1 [B2 B3]]. subst ne.
   destruct (fill_rows_spec (hp s) x (sn s) m (repeat (default_row (hp s) x) (Z.to_nat (sn s))) ND Kx (repeat_length _ _))
     as [out [F1 [F2 F3]]].
-  rewrite F1. simpl. split; [reflexivity|]. split; [reflexivity|]. f_equal.
+  rewrite F1. simpl. f_equal.
   apply nth_ext with (d := []) (d' := []); [lia|]. intros i Hi. rewrite F2 in Hi.
   assert (Hz : 0 <= Z.of_nat i < sn s) by lia.
   specialize (F3 _ Hz). rewrite Nat2Z.id in F3. rewrite F3.
@@ -355,25 +431,29 @@ Proof.
   destruct (lookup (Z.of_nat i) m) as [sv|] eqn:L.
   - destruct (rd_sparse_set _ _ _ _ _ _ Okx Sx L) as [row [R1 [R2 R3]]]. rewrite R1 in RD. inversion RD; subst.
     specialize (A3 _ _ L). destruct sv as [c|id]; simpl in *.
-    + inversion R2. rewrite A3. reflexivity.
-    + destruct (nth_error (hp s) id); inversion R2; reflexivity.
-  - rewrite (rd_sparse_unset _ _ _ _ _ Okx Sx L) in RD. inversion RD. rewrite nth_repeat_in by lia. reflexivity.
+    + inversion R2. rewrite A3. simpl. rewrite store_short; [reflexivity|]. eapply Sh; eauto.
+    + destruct A3 as [_ [cl [Hc [_ [Hk Hf]]]]]. rewrite Hc in *. inversion R2. unfold fixed in Hf. rewrite Hk in Hf.
+      symmetry. now apply fixed_cast_store.
+  - rewrite (rd_sparse_unset _ _ _ _ _ Okx Sx L) in RD. inversion RD. rewrite nth_repeat_in by lia. congruence.
 Qed.
 
 (* ------------------------------------------------------------------ one step of both worlds *)
 Definition addressed (n : Z) (o : op) : Prop :=
-  match o with SetItem _ k _ | GetItem _ k => 0 <= k < n | _ => True end.
+  match o with SetItem _ k _ | GetItem _ k | Update _ k _ _ => 0 <= k < n | _ => True end.
+
+Definition not_update (o : op) : Prop := match o with Update _ _ _ _ => False | _ => True end.
 
 Lemma sim_step s d o :
-  R s d -> op_ok o -> shared_op o -> addressed (sn s) o ->
+  R s d -> op_ok o -> shared_op o -> short_op o -> not_update o -> addressed (sn s) o ->
   pub (snd (step s (force false o))) = pub (snd (step d (force true o))) /\
   R (fst (step s (force false o))) (fst (step d (force true o))) /\
-  sn (fst (step s (force false o))) = size_after (sn s) o.
+  sn (fst (step s (force false o))) = size_after (corner s) (sn s) o.
 Proof.
-  intros HR Ho Hs Ha. pose proof HR as [C [N [Is [Id HA]]]].
-  destruct o; simpl in Ho, Hs, Ha; try contradiction; simpl force.
+  intros HR Ho Hs Hsh Hnu Ha. pose proof HR as [C [N [Is [Id HA]]]].
+  destruct o; simpl in Ho, Hs, Ha, Hnu; try contradiction; simpl force.
   - (* Create *)
     unfold step. simpl. destruct (sim_create (tick s) (tick d) a t k d0 (R_tick _ _ HR) Ho) as [W HR'].
+    { destruct d0; exact Hsh || exact I. }
     split; [now rewrite W|]. split; [exact HR'|].
     unfold do_create. destruct (match lookup a (attrs (tick s)) with Some _ => create_keeps_existing | None => false end);
       [reflexivity|]. destruct (mk_default (hp (tick s)) t k d0) as [e|[h' df]]; reflexivity.
@@ -390,7 +470,7 @@ Proof.
     pose proof (HA a) as H. unfold arel in H. change (attrs (tick s)) with (attrs s). change (attrs (tick d)) with (attrs d).
     destruct (lookup a (attrs s)), (lookup a (attrs d)); try contradiction; reflexivity.
   - (* SetItem *)
-    destruct (sim_set s d a key v HR Ha) as [W HR']. split; [now rewrite W|]. split; [exact HR'|].
+    destruct (sim_set s d a key v HR Ha Hsh) as [W HR']. split; [now rewrite W|]. split; [exact HR'|].
     destruct (step s (SetItem a key v)) as [s' w] eqn:E. simpl.
     unfold step in E. simpl in E. unfold do_set in E.
     repeat (match type of E with context [match ?x with _ => _ end] => destruct x end); inversion E; reflexivity.
@@ -428,8 +508,8 @@ Proof.
     split; [now rewrite W|]. split; [exact HR'|].
     unfold do_clear_attr. destruct (lookup a (attrs (tick s))) as [x|]; [|reflexivity]. destruct (ast x); reflexivity.
   - (* AsArray *)
-    unfold step. simpl. destruct (sim_as_array (tick s) (tick d) a (R_tick _ _ HR)) as [E1 [E2 W]].
-    rewrite E1, E2. simpl. split; [now rewrite W|]. split; [exact HR|reflexivity].
+    unfold step. simpl. destruct (sim_as_array (tick s) (tick d) a (R_tick _ _ HR)) as [W HR'].
+    split; [now rewrite W|]. split; [exact HR'|]. destruct (as_array_fields (tick s) a) as [_ [_ [Q _]]]. exact Q.
   - (* ClearAll *)
     unfold step. simpl. split; [reflexivity|]. split; [|reflexivity].
     pose proof (inv_step s ClearAll Is I) as Is'. pose proof (inv_step d ClearAll Id I) as Id'.
@@ -438,6 +518,15 @@ Proof.
   - (* CLen *)
     unfold step. simpl. change (sn (tick d)) with (sn d). change (sn (tick s)) with (sn s). rewrite N.
     split; [reflexivity|]. split; [exact HR|reflexivity].
+  - (* ExtendListBad *)
+    unfold step. cbn [force]. change (corner (tick s)) with (corner s). change (corner (tick d)) with (corner d).
+    rewrite <- C. destruct (corner s) eqn:Cn.
+    + simpl. change (sn (tick d)) with (sn d). change (sn (tick s)) with (sn s). rewrite N.
+      split; [reflexivity|]. split; [exact HR|reflexivity].
+    + assert (Q : iadd_list_amount (tick d) (m + 1) = iadd_list_amount (tick s) (m + 1)) by (unfold iadd_list_amount; simpl; rewrite <- C, Cn; reflexivity).
+      rewrite Q. destruct (sim_grow (tick s) (tick d) (m + 1) (iadd_list_amount (tick s) (m + 1)) (R_tick _ _ HR)) as [W HR']; [lia| |].
+      * unfold iadd_list_amount. change (corner (tick s)) with (corner s). rewrite Cn. reflexivity.
+      * split; [exact W|]. split; [exact HR'|reflexivity].
 Qed.
 
 Lemma R_init c : R (init c) (init c).
@@ -446,21 +535,313 @@ Proof.
   intros a. unfold arel. simpl. exact I.
 Qed.
 
-Lemma sim_run : forall h s d,
-  R s d -> Forall op_ok h -> Forall shared_op h -> well_addressed (sn s) h ->
+(* ------------------------------------------------------------------ attr[k][c] = x on an entry that was written *)
+(* the sparse entry (a,k) holds a vector (it was written since the attribute was created / cleared) - or the
+   attribute is missing / scalar, in which case both storages refuse alike *)
+Definition upd_guard (s : state) (a k : Z) : Prop :=
+  match lookup a (attrs s) with
+  | Some x => match ast x with
+              | Sparse m => 1 < asz x -> exists id, lookup k m = Some (SVec id)
+              | Dense _ _ _ => True
+              end
+  | None => True
+  end.
+
+Lemma map_upd {A B} (f : A -> B) l i v : map f (upd l i v) = upd (map f l) i (f v).
+Proof. revert i. induction l; intros [|i]; simpl; auto. now rewrite IHl. Qed.
+
+Lemma R_with_refs s d rs rd_ :
+  R s d -> Forall (ref_ok (hp s)) rs -> Forall (ref_ok (hp d)) rd_ -> R (with_refs s rs) (with_refs d rd_).
+Proof.
+  intros [C [N [[I0 [I1 I2]] [[J0 [J1 J2]] HA]]]] Hs Hd.
+  split; [exact C|]. split; [exact N|]. split; [split; [exact I0|split; [exact I1|exact Hs]]|].
+  split; [split; [exact J0|split; [exact J1|exact Hd]]|]. exact HA.
+Qed.
+
+Lemma mut_ref_fields s rf c x :
+  corner (mut_ref s rf c x) = corner s /\ sn (mut_ref s rf c x) = sn s /\ refs (mut_ref s rf c x) = refs s.
+Proof.
+  destruct rf as [id|a st k|a st|]; simpl; auto.
+  - destruct (nth_error (hp s) id); auto.
+  - destruct (lookup a (attrs s)) as [xx|]; auto. destruct (ast xx); auto. destruct (_ =? _); auto.
+Qed.
+
+Lemma sim_update s d a k c x0 :
+  R s d -> own s -> 0 <= k < sn s -> short x0 -> upd_guard s a k ->
+  snd (do_update s a k c x0) = snd (do_update d a k c x0) /\
+  R (fst (do_update s a k c x0)) (fst (do_update d a k c x0)) /\
+  (length (refs (fst (do_update s a k c x0))) - length (refs s) =
+   length (refs (fst (do_update d a k c x0))) - length (refs d))%nat /\
+  sn (fst (do_update s a k c x0)) = sn s.
+Proof.
+  intros HR Ow Hk Hx G. pose proof HR as [C [N [Is [Id HA]]]].
+  pose proof (HA a) as Ha. unfold arel in Ha. unfold upd_guard in G. unfold do_update, do_get.
+  destruct (lookup a (attrs s)) as [x|] eqn:Lx; destruct (lookup a (attrs d)) as [y|] eqn:Ly; try contradiction.
+  2:{ simpl. split; [reflexivity|split; [exact HR|split; [lia|reflexivity]]]. }
+  destruct Ha as [T [Z0 [[m [Sx [Kx Sh]]] [[ne [st [rows Sy]]] [DF [UR RD]]]]]]. rewrite Sx in G |- *. rewrite Sy.
+  pose proof Is as [Nn [I1 I2]]. pose proof Id as [_ [J1 J2]].
+  pose proof (I1 _ _ Lx) as Okx. pose proof (J1 _ _ Ly) as Oky.
+  pose proof Okx as [A1 [A2 A3]]. rewrite Sx in A3. destruct A3 as [ND A3].
+  pose proof Oky as [_ [_ B]]. rewrite Sy in B. destruct B as [B1 [B2 B3]]. subst ne.
+  rewrite (in_range_not_oob k (sn d)) by lia. unfold dense_get_scalar, sparse_get_fresh.
+  destruct (Z_lt_dec 1 (asz x)) as [Vec|Scal].
+  2:{ (* scalar attribute: a scalar does not support item assignment, in either storage *)
+      assert (E1 : asz x = 1) by lia. assert (E2 : asz y =? 1 = true) by lia. rewrite E2.
+      assert (E3 : asz x >? 1 = false) by lia. rewrite E3.
+      destruct (lookup k m) as [[c0|id]|] eqn:Lk.
+      - simpl. split; [reflexivity|split; [exact HR|split; [lia|reflexivity]]].
+      - exfalso. destruct (A3 _ _ Lk) as [L _]. lia.
+      - destruct (adef x) as [c0|id] eqn:D; [simpl; split; [reflexivity|split; [exact HR|split; [lia|reflexivity]]]|]. exfalso. destruct A2 as [L _]. lia. }
+  destruct (G Vec) as [id Lk]. rewrite Lk. destruct (A3 _ _ Lk) as [_ [cl [Hc [Hr [Hkd Hfx]]]]]. rewrite Hc.
+  assert (E2 : asz y =? 1 = false) by lia. rewrite E2.
+  (* the two rows read alike *)
+  pose proof (RD k Hk) as RDk. erewrite (rd_dense _ _ _ _ _ _ _ Oky Sy) in RDk by lia.
+  unfold rd_attr in RDk. rewrite Sx, Lk in RDk. simpl in RDk. rewrite Hc in RDk. inversion RDk as [RowEq]. clear RDk.
+  rewrite RowEq.
+  assert (N1 : nth_error (refs (with_refs s (refs s ++ [RObj id]))) (length (refs s)) = Some (RObj id)) by (simpl; apply nth_error_app_new).
+  assert (N2 : nth_error (refs (with_refs d (refs d ++ [RRow a st k]))) (length (refs d)) = Some (RRow a st k)) by (simpl; apply nth_error_app_new).
+  assert (RS : Forall (ref_ok (hp s)) (refs s ++ [RObj id])).
+  { apply Forall_app. split; [exact I2|]. constructor; [|constructor]. simpl. apply nth_error_Some. congruence. }
+  assert (RDn : Forall (ref_ok (hp d)) (refs d ++ [RRow a st k])).
+  { apply Forall_app. split; [exact J2|]. constructor; [|constructor]. simpl. lia. }
+  pose proof (R_with_refs s d _ _ HR RS RDn) as HR1.
+  destruct ((c <? 0) || (c >=? Z.of_nat (length (znth_row rows k)))) eqn:Cr.
+  { simpl. split; [reflexivity|]. split; [exact HR1|]. split; [rewrite !app_length; simpl; lia|reflexivity]. }
+  rewrite N1, N2. cbn [fst snd]. split; [reflexivity|].
+  set (s1 := with_refs s (refs s ++ [RObj id])) in *. set (d1 := with_refs d (refs d ++ [RRow a st k])) in *.
+  pose proof HR1 as [_ [_ [Is1 [Id1 _]]]].
+  assert (T1 : tracked id a k s1).
+  { assert (En : entryA (attrs s) a k id) by (exists x, m; auto). exact (Ow _ _ _ En). }
+  split; [|split].
+  2:{ destruct (mut_ref_fields s1 (RObj id) c x0) as [_ [_ Q1]]. destruct (mut_ref_fields d1 (RRow a st k) c x0) as [_ [_ Q2]].
+      rewrite Q1, Q2. unfold s1, d1. simpl. rewrite !app_length. simpl. lia. }
+  2:{ destruct (mut_ref_fields s1 (RObj id) c x0) as [_ [Q1 _]]. exact Q1. }
+  (* the relation after the two updates *)
+  destruct (mut_ref_fields s1 (RObj id) c x0) as [CS1 [NS1 _]]. destruct (mut_ref_fields d1 (RRow a st k) c x0) as [CD1 [ND1 _]].
+  split; [rewrite CS1, CD1; exact C|]. split; [rewrite NS1, ND1; exact N|].
+  split; [apply inv_mut_ref; exact Is1|]. split; [apply inv_mut_ref; exact Id1|].
+  pose proof (inv_mut_ref d1 (RRow a st k) c x0 Id1) as Id2.
+  intros b. unfold arel.
+  assert (AS : attrs (mut_ref s1 (RObj id) c x0) = attrs s) by (simpl; change (hp s1) with (hp s); rewrite Hc; reflexivity).
+  assert (NS : sn (mut_ref s1 (RObj id) c x0) = sn s) by (simpl; change (hp s1) with (hp s); rewrite Hc; reflexivity).
+  rewrite AS, NS.
+  assert (HS : hp (mut_ref s1 (RObj id) c x0) = upd (hp s) id (mkcell (ck cl) (upd (cv cl) (Z.to_nat c) (store (ck cl) x0))))
+    by (simpl; change (hp s1) with (hp s); rewrite Hc; reflexivity).
+  rewrite HS.
+  assert (AD : attrs (mut_ref d1 (RRow a st k) c x0)
+               = put a (set_storage y (Dense (sn d) st (upd rows (Z.to_nat k) (upd (znth_row rows k) (Z.to_nat c) (store (aty y) x0))))) (attrs d))
+    by (simpl; change (attrs d1) with (attrs d); rewrite Ly, Sy, Z.eqb_refl; reflexivity).
+  assert (HD : hp (mut_ref d1 (RRow a st k) c x0) = hp d)
+    by (simpl; change (attrs d1) with (attrs d); rewrite Ly, Sy, Z.eqb_refl; reflexivity).
+  rewrite AD, HD in *.
+  (* what the update of cell id leaves untouched in the sparse world *)
+  assert (PR : forall b' xb, lookup b' (attrs s) = Some xb ->
+               default_row (upd (hp s) id (mkcell (ck cl) (upd (cv cl) (Z.to_nat c) (store (ck cl) x0)))) xb = default_row (hp s) xb /\
+               forall j, (b', j) <> (a, k) ->
+                         rd_attr (upd (hp s) id (mkcell (ck cl) (upd (cv cl) (Z.to_nat c) (store (ck cl) x0)))) xb j = rd_attr (hp s) xb j).
+  { intros b' xb Lb. destruct T1 as [_ [T2 T3]]. change (attrs s1) with (attrs s) in *.
+    assert (NDc : adef xb <> DCell id) by (intros Q; apply (T3 b'); exists xb; auto).
+    split.
+    - unfold default_row. destruct (adef xb) as [c0|id'] eqn:Dx; [reflexivity|].
+      rewrite nth_error_upd_other; [reflexivity|]. intros Q. apply NDc. now subst.
+    - intros j Nj. apply rd_attr_heap_upd; [exact NDc|]. intros m0 St0 Lk0.
+      destruct (T2 b' j) as [Eq1 Eq2]; [exists xb, m0; auto|]. apply Nj. congruence. }
+  destruct (Z.eq_dec b a) as [Eb|NE].
+  - subst b. rewrite Lx, lookup_put_same. simpl.
+    destruct (PR a x Lx) as [PD PRd].
+    split; [exact T|]. split; [exact Z0|]. split; [exists m; auto|]. split; [eauto|].
+    split; [rewrite PD; exact DF|]. split; [unfold unset_read in *; rewrite PD; exact UR|].
+    intros j Hj. destruct (Z.eq_dec j k) as [Ej|Nj].
+    + subst j. unfold rd_attr at 1. rewrite Sx, Lk. simpl.
+      rewrite nth_error_upd_same by (apply nth_error_Some; congruence). simpl.
+      destruct Id2 as [_ [J1' _]]. rewrite AD in J1'. pose proof (J1' a _ (lookup_put_same _ _ _)) as Oky'.
+      rewrite ND1 in Oky'. rewrite HD in Oky'.
+      erewrite rd_dense; [|exact Oky'|reflexivity|change (sn d1) with (sn d); rewrite <- N; exact Hk]. f_equal. unfold znth_row at 1.
+      rewrite nth_upd_same by lia. rewrite map_upd, RowEq, Hkd, <- T, cast_store. reflexivity.
+    + rewrite PRd by congruence. rewrite (RD j Hj).
+      unfold rd_attr. simpl. rewrite Sy. destruct (dense_oob j (sn d)) eqn:O; [reflexivity|].
+      unfold znth_row. rewrite nth_upd_other by lia. reflexivity.
+  - rewrite lookup_put_other by exact NE. pose proof (HA b) as Hb. unfold arel in Hb.
+    destruct (lookup b (attrs s)) as [xb|] eqn:Lb; destruct (lookup b (attrs d)) as [yb|] eqn:Lyb; try contradiction; [|exact I].
+    destruct (PR b xb Lb) as [PD PRd].
+    destruct Hb as [Tb [Zb [Kb [DNb [DFb [URb RDb]]]]]].
+    split; [exact Tb|]. split; [exact Zb|]. split; [exact Kb|]. split; [exact DNb|].
+    split; [rewrite PD; exact DFb|]. split; [unfold unset_read in *; rewrite PD; exact URb|].
+    intros j Hj. rewrite PRd by congruence. now apply RDb.
+Qed.
+
+(* ------------------------------------------------------------------ references are handed out in step *)
+Definition bump (o : op) (w : obs) : nat :=
+  match o, w with
+  | GetItem _ _, OVal _ true => 1
+  | AsArray _, ORows _ => 1
+  | _, _ => 0
+  end.
+
+Lemma bump_pub o w w' : pub w = pub w' -> bump o w = bump o w'.
+Proof. destruct o, w, w'; simpl; intros H; try discriminate H; try reflexivity; inversion H; reflexivity. Qed.
+
+Lemma refs_len_step s o s' w :
+  shared_op o -> not_update o -> step s o = (s', w) -> length (refs s') = (length (refs s) + bump o w)%nat.
+Proof.
+  intros Hs Hn E. unfold step in E. change (refs s) with (refs (tick s)). set (t := tick s) in *. clearbody t. clear s.
+  destruct o; simpl in Hs, Hn; try contradiction; simpl in E.
+  - unfold do_create in E. destruct (match lookup a (attrs t) with Some _ => create_keeps_existing | None => false end);
+      [inversion E; subst; simpl; lia|].
+    destruct (mk_default (hp t) t0 k d) as [e|[h' df]]; inversion E; subst; simpl; lia.
+  - inversion E; subst; simpl; lia.
+  - inversion E; subst; simpl; lia.
+  - unfold do_set in E. repeat (match type of E with context [match ?x with _ => _ end] => destruct x end);
+      inversion E; subst; simpl; lia.
+  - unfold do_get in E. repeat (match type of E with context [match ?x with _ => _ end] => destruct x end);
+      inversion E; subst; simpl; rewrite ?app_length; simpl; lia.
+  - unfold grow in E; inversion E; subst; simpl; lia.
+  - unfold grow in E; inversion E; subst; simpl; lia.
+  - unfold grow in E; inversion E; subst; simpl; lia.
+  - unfold grow in E; inversion E; subst; simpl; lia.
+  - inversion E; subst; simpl; lia.
+  - unfold do_clear_attr in E. repeat (match type of E with context [match ?x with _ => _ end] => destruct x end);
+      inversion E; subst; simpl; lia.
+  - unfold do_as_array in E. repeat (match type of E with context [match ?x with _ => _ end] => destruct x end);
+      inversion E; subst; simpl; rewrite ?app_length; simpl; lia.
+  - inversion E; subst; simpl; lia.
+  - inversion E; subst; simpl; lia.
+  - destruct (corner t); [inversion E; subst; simpl; lia|unfold grow in E; inversion E; subst; simpl; lia].
+Qed.
+
+Lemma do_get_corner s a k : corner (fst (do_get s a k)) = corner s.
+Proof. unfold do_get. repeat (match goal with |- context [match ?x with _ => _ end] => destruct x end); reflexivity. Qed.
+
+Lemma step_corner s o : corner (fst (step s o)) = corner s.
+Proof.
+  unfold step. change (corner s) with (corner (tick s)). set (t := tick s). clearbody t.
+  destruct o; cbn [fst]; try reflexivity.
+  - unfold do_create. repeat (match goal with |- context [match ?x with _ => _ end] => destruct x end); reflexivity.
+  - unfold do_set. repeat (match goal with |- context [match ?x with _ => _ end] => destruct x end); reflexivity.
+  - apply do_get_corner.
+  - unfold do_mut. destruct (nth_error (refs t) r) as [[id|a st k|a st|]|]; try reflexivity; cbn [fst]; apply mut_ref_fields.
+  - unfold do_clear_attr. repeat (match goal with |- context [match ?x with _ => _ end] => destruct x end); reflexivity.
+  - apply as_array_fields.
+  - destruct (lookup a (attrs t)); reflexivity.
+  - destruct (lookup a (attrs t)) as [x|]; [destruct (ast x)|]; reflexivity.
+  - unfold do_update. pose proof (do_get_corner t a key) as G. destruct (do_get t a key) as [s1 w1]. simpl in G.
+    destruct w1; try exact G. destruct isvec; [|exact G].
+    destruct ((c <? 0) || (c >=? Z.of_nat (length row))); [exact G|].
+    destruct (nth_error (refs s1) (length (refs t))) as [rf|]; [|exact G]. cbn [fst].
+    destruct (mut_ref_fields s1 rf c x) as [Q _]. congruence.
+  - unfold do_mut_arr. destruct (nth_error (refs t) r) as [[id|a st k|a st|]|]; try reflexivity.
+    destruct (row <? 0); [reflexivity|]. cbn [fst]. apply mut_ref_fields.
+  - unfold do_contains. repeat (match goal with |- context [match ?x with _ => _ end] => destruct x end); reflexivity.
+  - destruct (corner t) eqn:Cn; simpl; [exact Cn|exact Cn].
+  - unfold do_create_sized. repeat (match goal with |- context [match ?x with _ => _ end] => destruct x end); reflexivity.
+  - unfold do_register. repeat (match goal with |- context [match ?x with _ => _ end] => destruct x end); reflexivity.
+Qed.
+
+(* ------------------------------------------------------------------ the full relation and the run *)
+Definition RR (s d : state) : Prop := R s d /\ length (refs s) = length (refs d) /\ own s.
+
+Lemma RR_init c : RR (init c) (init c).
+Proof. split; [apply R_init|]. split; [reflexivity|apply own_init]. Qed.
+
+(* guard of the in-place updates of a history: each one hits an entry that holds a written vector at that time
+   (evaluated along the sparse run) *)
+Fixpoint updates_hit_written (s : state) (h : list op) : Prop :=
+  match h with
+  | [] => True
+  | o :: t => match o with Update a k _ _ => upd_guard s a k | _ => True end /\
+              updates_hit_written (fst (step s (force false o))) t
+  end.
+
+Lemma sim_step_full s d o :
+  RR s d -> op_ok o -> shared_op o -> short_op o -> addressed (sn s) o ->
+  match o with Update a k _ _ => upd_guard s a k | _ => True end ->
+  pub (snd (step s (force false o))) = pub (snd (step d (force true o))) /\
+  RR (fst (step s (force false o))) (fst (step d (force true o))) /\
+  sn (fst (step s (force false o))) = size_after (corner s) (sn s) o /\
+  corner (fst (step s (force false o))) = corner s.
+Proof.
+  intros [HR [HL Ow]] Ho Hs Hsh Ha G.
+  assert (Ow' : own (fst (step s (force false o)))).
+  { apply own_step; [destruct HR as [_ [_ [Is _]]]; exact Is| |exact Ow]. destruct o; exact Ho. }
+  assert (CN : corner (fst (step s (force false o))) = corner s) by apply step_corner.
+  assert (NU : not_update o \/ exists a key c x, o = Update a key c x) by (destruct o; simpl; eauto 6).
+  destruct NU as [NU|[a [key [c [x Eo]]]]].
+  { destruct (sim_step s d _ HR Ho Hs Hsh NU Ha) as [W [HR' Sz]].
+    split; [exact W|]. split; [|split; [exact Sz|exact CN]].
+    split; [exact HR'|]. split; [|exact Ow'].
+    assert (Hs' : shared_op (force false o)) by (destruct o; exact Hs).
+    assert (Hs'' : shared_op (force true o)) by (destruct o; exact Hs).
+    assert (NU' : not_update (force false o)) by (destruct o; exact NU).
+    assert (NU'' : not_update (force true o)) by (destruct o; exact NU).
+    destruct (step s (force false o)) as [s1 w1] eqn:E1. destruct (step d (force true o)) as [d1 w2] eqn:E2.
+    simpl in *. rewrite (refs_len_step _ _ _ _ Hs' NU' E1), (refs_len_step _ _ _ _ Hs'' NU'' E2), HL. f_equal.
+    transitivity (bump o w1); [destruct o; reflexivity|]. transitivity (bump o w2); [|destruct o; reflexivity].
+    apply bump_pub. exact W. }
+  subst o.
+  (* Update *)
+  simpl force. unfold step. simpl in *.
+  destruct (sim_update (tick s) (tick d) a key c x (R_tick _ _ HR) Ow Ha Hsh G) as [W [HR' [HLn Sz]]].
+  split; [now rewrite W|]. split; [|split; [exact Sz|exact CN]].
+  split; [exact HR'|]. split; [|exact Ow'].
+  pose proof (do_get_mono (tick s) a key) as M1. pose proof (do_get_mono (tick d) a key) as M2.
+  assert (G1 : (length (refs (tick s)) <= length (refs (fst (do_update (tick s) a key c x))))%nat).
+  { pose proof (step_mono s (Update a key c x) _ _ (surjective_pairing _)) as [_ [ex Ex]]. unfold step in Ex. simpl in Ex.
+    change (refs (tick s)) with (refs s). rewrite Ex, app_length. lia. }
+  assert (G2 : (length (refs (tick d)) <= length (refs (fst (do_update (tick d) a key c x))))%nat).
+  { pose proof (step_mono d (Update a key c x) _ _ (surjective_pairing _)) as [_ [ex Ex]]. unfold step in Ex. simpl in Ex.
+    change (refs (tick d)) with (refs d). rewrite Ex, app_length. lia. }
+  change (refs (tick s)) with (refs s) in *. change (refs (tick d)) with (refs d) in *. lia.
+Qed.
+
+Lemma sim_run_full : forall h s d,
+  RR s d -> Forall op_ok h -> Forall shared_op h -> Forall short_op h ->
+  well_addressed (corner s) (sn s) h -> updates_hit_written s h ->
   map pub (snd (run s (map (force false) h))) = map pub (snd (run d (map (force true) h))).
 Proof.
-  induction h as [|o t IH]; intros s d HR H1 H2 H3; simpl; [reflexivity|].
-  inversion H1 as [|? ? Ho1 Ht1]; subst. inversion H2 as [|? ? Ho2 Ht2]; subst. destruct H3 as [Ha3 Ht3].
-  destruct (sim_step s d o HR Ho1 Ho2 Ha3) as [W [HR' Sz]].
+  induction h as [|o t IH]; intros s d HR H1 H2 H3 H4 H5; simpl; [reflexivity|].
+  inversion H1 as [|? ? Ho1 Ht1]; subst. inversion H2 as [|? ? Ho2 Ht2]; subst. inversion H3 as [|? ? Ho3 Ht3]; subst.
+  destruct H4 as [Ha4 Ht4]. destruct H5 as [Hg5 Ht5].
+  destruct (sim_step_full s d o HR Ho1 Ho2 Ho3 Ha4 Hg5) as [W [HR' [Sz Cn]]].
   destruct (step s (force false o)) as [s1 w1]. destruct (step d (force true o)) as [d1 w2]. simpl in *.
-  specialize (IH s1 d1 HR'). rewrite Sz in IH.
+  specialize (IH s1 d1 HR'). rewrite Sz, Cn in IH.
   destruct (run s1 (map (force false) t)) as [s2 ws]. destruct (run d1 (map (force true) t)) as [d2 wd]. simpl in *.
   f_equal; [exact W|]. apply IH; assumption.
 Qed.
 
-(* the statement: the two storages answer alike along every history that addresses elements of the container *)
+(* the statement: along every history of shared operations - in-place updates attr[k][c] = x of written entries
+   included - whose reads and writes address elements of the container and whose strings fit the fixed width,
+   the all-sparse and the all-dense run answer alike *)
 Theorem sparse_dense_agree : forall c h,
-  Forall op_ok h -> Forall shared_op h -> well_addressed 0 h ->
+  Forall op_ok h -> Forall shared_op h -> Forall short_op h -> well_addressed c 0 h ->
+  updates_hit_written (init c) h ->
   map pub (snd (run (init c) (map (force false) h))) = map pub (snd (run (init c) (map (force true) h))).
-Proof. intros c h H1 H2 H3. apply sim_run; auto. apply R_init. Qed.
+Proof. intros c h H1 H2 H3 H4 H5. apply sim_run_full; auto. apply RR_init. Qed.
+
+(* ------------------------------------------------------------------ where the full statement fails (known findings) *)
+(* 1. an in-place update of the value read at a never-written entry: the dense read is a view and writes through,
+      the sparse read is a detached copy of the default *)
+Definition wit_update : list op :=
+  [Append; Create 0 TFloat 2 false None; Update 0 0 0 (CF 40); GetItem 0 0].
+
+Theorem agree_updates_unset_refuted :
+  exists c h, Forall op_ok h /\ Forall shared_op h /\ Forall short_op h /\ well_addressed c 0 h /\
+              map pub (snd (run (init c) (map (force false) h))) <> map pub (snd (run (init c) (map (force true) h))).
+Proof.
+  exists false, wit_update. unfold wit_update. repeat split; try (repeat constructor; simpl; try lia; auto).
+  vm_compute. intros H. discriminate H.
+Qed.
+
+(* 2. a string longer than the fixed width of the dense storage: the dense storage (and every as_array) cuts it,
+      the sparse scalar entry keeps the python string *)
+Definition long_string : list Z := repeat 120 33.
+
+Definition wit_long : list op :=
+  [Append; Create 0 TString 1 false None; SetItem 0 0 (VStr long_string); GetItem 0 0].
+
+Theorem agree_long_strings_refuted :
+  exists c h, Forall op_ok h /\ Forall shared_op h /\ well_addressed c 0 h /\ updates_hit_written (init c) h /\
+              map pub (snd (run (init c) (map (force false) h))) <> map pub (snd (run (init c) (map (force true) h))).
+Proof.
+  exists false, wit_long. unfold wit_long. repeat split; try (repeat constructor; simpl; try lia; auto).
+  vm_compute. intros H. discriminate H.
+Qed.
